@@ -184,7 +184,7 @@ func indexOfUser(t []c16Entry, u string) int {
 }
 
 func runC16(c *fw.Ctx) {
-	c.Rule = "credential files: the empty store and every table of 1-3 (quick) / 1-4 (thorough) distinct users out of 6, in every order, each line with 2 fields, 3 fields and a mount point, or 3 fields and an empty mount point - enumerated completely - plus seeded tables of 4-6 entries; each table is written to disk and loaded by the real FileHandler; candidates = every present pair, wrong password, the stored hash presented as password, every swapped pair, ten absent users (hashes before/between/after the stored ones) each with every stored password, empty user and/or password. Oracle: exact lookup in the generated table, mount point = third field or the default when absent/empty. Static handler likewise. distinct = (table, candidate set); non-trivial = table has >=2 entries or a 3-field line. End-to-end part: CONNECTs against a broker node with the file/static handler"
+	c.Rule = "credential files: the empty store and every table of 1-3 (quick) / 1-4 (thorough) distinct users out of 6, in every order, each line with 2 fields, 3 fields and a mount point, or 3 fields and an empty mount point - enumerated completely - plus seeded tables of 4-6 entries; each table is written to disk and loaded by the real FileHandler; candidates = every present pair, wrong password, the stored hash presented as password, every swapped pair, ten absent users (hashes before/between/after the stored ones) each with every stored password, empty user and/or password. Oracle: exact lookup in the generated table, mount point = third field or the default when absent/empty. Static handler likewise. distinct = (table, candidate set); non-trivial = table has >=2 entries or a 3-field line. End-to-end part: CONNECTs against a broker node with the file/static handler. Wiring part: getAuthHandler of cmd/wasp (configuration -> handler; package main, reached by a driver test injected with go test -overlay) with the settings of both stores present and the provider choosing; candidates from both stores"
 	c.Assume("second field of a credential line = lowercase hex SHA-256 of the password (the loader stores it into PasswordHash and compares it with the hash of the presented password)")
 	c.Assume("user names are distinct within a table and free of CSV metacharacters")
 	dir := os.Getenv("VERIF_WORK")
@@ -291,4 +291,5 @@ func runC16(c *fw.Ctx) {
 	c.Floor("rejected", 100)
 
 	c16EndToEnd(c)
+	c16Wiring(c)
 }
